@@ -20,6 +20,9 @@ Correspondence K (Model/MeasureRun.v, differ inside Coq):
     the model's exact rationals within 1e-12 of a running magnitude bound (`uncertainties`
     computes in binary floats: this part is differential TESTING, labelled so).
 Oracles decide the property statement on pint alone (see ORACLES below); among them the
+bare-operand oracle (a bare ufloat 0 +/- s against dimensioned Quantity / Quantity(ufloat) /
+Measurement for + - < <= > >= ==, both operand orders, must meet the outcome of the plain quantity
+with a plain number of the same zero-ness; the + / - cases also go to the model) and the
 derived-correlation oracle: one expression tree with shared variables and filled-in conversions
 (random trees incl. **, and the histories m - m.to(u), 3*m - m, (m+m)+m, (m*t)/m, (m/t)*t, m**2/m,
 K -> degC -> K) evaluated on Measurement objects (every constructor form), on Quantity objects
@@ -37,6 +40,7 @@ from fractions import Fraction as F
 from .common import coq_bool, coq_list, coq_opt, coq_q, coq_str, coq_uc
 
 warnings.filterwarnings("ignore", message="Using UFloat objects with std_dev==0")
+warnings.filterwarnings("ignore", message=r"AffineScalarFunc\.__\w+__\(\) is deprecated", category=FutureWarning)
 
 HEADER_T = ("From PintV Require Import Model.UC Model.Eval Model.Registry Model.UCRun Model.Measure "
             "Model.UncTok Model.MeasureRun Gen.DefaultDefs Gen.DefaultReg.\n"
@@ -1032,6 +1036,69 @@ def derived_templates(u_len, u_len2, u_time):
     ]
 
 
+
+# ---------------------------------------------------------------------------- bare (unit-less) operands
+# Plain-quantity rule: a bare number may be added to, subtracted from, ordered against or found equal
+# to a quantity that has a dimension only if it is exactly zero (or NaN).  An uncertain number
+# 0 ± s with s > 0 is NOT zero.  The oracle runs `q op b` and `b op q` for a bare ufloat b against a
+# plain Quantity, a Quantity holding a ufloat and a Measurement, and demands the outcome (error
+# class / units / value) of the plain quantity with a plain float of the same zero-ness.
+BARE_OPS = ["add", "sub", "lt", "le", "gt", "ge", "eq"]
+
+
+def oracle_bare(w, plan):
+    import operator
+    from uncertainties import ufloat
+    kind, v, sq, unit = plan["q"]
+    n, sb = plan["bare"]
+    op = getattr(operator, plan["op"])
+    swap = plan["swap"]
+    n = float(n)
+    bare = n if sb is None else ufloat(n, float(sb))
+    isnan = math.isnan(n)
+    exact_zero = n == 0 and (sb is None or float(sb) == 0)
+    ref = n if (isnan or exact_zero or n != 0) else float(sb)       # a plain float with the same zero-ness
+    v, sq = float(v), float(sq)
+    q = {"Q": lambda: w.Q(v, unit), "QU": lambda: w.Q(ufloat(v, sq), unit), "M": lambda: w.M(v, sq, unit)}[kind]()
+    qp = w.Q(v, unit)
+
+    def outcome(a, b):
+        try:
+            r = op(b, a) if swap else op(a, b)
+            return ("ok", r)
+        except Exception as e:
+            return ("err", type(e).__name__)
+    got, want = outcome(q, bare), outcome(qp, ref)
+    expr = f"{plan['op']}({'b, q' if swap else 'q, b'}) with q = {kind}({v}, {sq}, {unit!r}), b = " + (repr(n) if sb is None else f"ufloat({n}, {sb})")
+    tag = "uzero" if (n == 0 and sb is not None and float(sb) > 0) else "zero" if exact_zero else "nan" if isnan else "nonzero"
+    if got[0] != want[0] or (got[0] == "err" and got[1] != want[1]):
+        g = f"raises {got[1]}" if got[0] == "err" else f"returns {got[1]!r}"
+        x = f"raises {want[1]}" if want[0] == "err" else f"returns {want[1]!r}"
+        nonmult = any(not w.ureg._units[k_].is_multiplicative for k_ in w.ureg.Unit(unit or "dimensionless")._units)
+        if kind == "M" and nonmult and want == ("err", "OffsetUnitCalculusError") and got[0] == "ok":
+            # the Measurement class skips the offset-unit rules altogether (F73)
+            return [(f"unit-rules:Measurement:offset-units:{plan['op']}",
+                     f"Measurement: {expr} {g} while the plain quantity {x}")]
+        return [(f"bare-operand:{tag}:{kind}:{plan['op']}:{'swapped' if swap else 'direct'}",
+                 f"{expr} {g}; the plain quantity with the plain number {ref!r} {x}: an uncertain bare number is held to the "
+                 f"unit rule of a plain one (only an exact zero or NaN may skip the unit check)")]
+    if got[0] == "err":
+        return []
+    fails = []
+    r, rp = got[1], want[1]
+    if hasattr(rp, "_units") != hasattr(r, "_units") or (hasattr(r, "_units") and ucd(r._units) != ucd(rp._units)):
+        fails.append((f"bare-operand-units:{tag}:{kind}:{plan['op']}", f"{expr} gives {r!r}, plain quantities give {rp!r}"))
+    elif ref == n and not isnan:
+        if isinstance(rp, (bool,)) or not hasattr(rp, "magnitude"):
+            if bool(r) != bool(rp):
+                fails.append((f"bare-operand-value:{tag}:{kind}:{plan['op']}", f"{expr} gives {r!r}, plain quantities give {rp!r}"))
+        else:
+            gn = nom_std(r)[0]
+            if not math.isclose(gn, rp.magnitude, rel_tol=1e-12, abs_tol=1e-300):
+                fails.append((f"bare-operand-value:{tag}:{kind}:{plan['op']}", f"{expr} gives {r!r}, plain quantities give {rp!r}"))
+    return fails
+
+
 # ---------------------------------------------------------------------------- the run
 def run(ck):
     rng = random.Random(ck.seed)
@@ -1400,6 +1467,39 @@ def run(ck):
         ck.case(key=("ufloat-identity", vt, st, u))
         ck.count("ufloat-identity")
 
+    # bare (unit-less) operands, uncertain ones included, against dimensioned quantities: both operand orders
+    bare_units = ["km", "m/s", "degC", "kelvin", "s", "", "percent", "kg*m**2"]
+    bare_vals = [(0.0, None), (0.0, 0.0), (0.0, 0.3), (0.0, 1e-6), (0.0, 4.0e3), (2.5, None), (2.5, 0.1), (1e-300, 0.2),
+                 (-3.0, 0.0), (float("nan"), None), (float("nan"), 0.5)]
+    for _ in range(1400 if thorough else 360):
+        n, sb = rng.choice(bare_vals) if rng.random() < 0.7 else (0.0, rng.randint(1, 999) * 10.0 ** rng.randint(-9, 6))
+        plan = {"kind": "bare", "q": [rng.choice(["Q", "QU", "M", "M", "QU"]), repr(float(rng.randint(1, 9999)) * 10.0 ** rng.randint(-3, 3)),
+                                      repr(rng.randint(1, 99) / 100.0), rng.choice(bare_units)],
+                "bare": [repr(n), None if sb is None else repr(sb)], "op": rng.choice(BARE_OPS), "swap": rng.random() < 0.5}
+        try:
+            record(oracle_bare(w, plan), plan)
+        except Exception as exn:
+            fails.append((f"bare-oracle-error:{type(exn).__name__}", f"{plan}: {exn}", plan))
+        ck.case(key=("bare", json.dumps(plan, sort_keys=True)))
+        ck.count("bare-operand")
+        # the + / - cases also go to the model (exact zero test on nominal value AND std_dev)
+        if plan["op"] in ("add", "sub") and not math.isnan(n):
+            kind_, v_, sq_, unit_ = plan["q"]
+            v_, sq_ = float(v_), (0.0 if kind_ == "Q" else float(sq_))
+            qobj = {"Q": lambda: w.Q(v_, unit_), "QU": lambda: w.Q(ufloat(v_, sq_), unit_), "M": lambda: w.M(v_, sq_, unit_)}[kind_]()
+            bobj = n if sb is None else ufloat(n, sb)
+            import operator as _op
+            f_ = getattr(_op, plan["op"])
+            try:
+                r_ = f_(bobj, qobj) if plan["swap"] else f_(qobj, bobj)
+                n_r, s_r = nom_std(r_)
+                res = f"(EXOk {coq_q(F(n_r))} {coq_q(F(s_r * s_r))} {coq_uc(ucd(r_._units))})"
+            except Exception as exn:
+                res = f"(EXErr {ecls(exn)})"
+            add(f"KBare {coq_bool(plan['op'] == 'sub')} {coq_bool(plan['swap'])} {coq_q(F(v_))} {coq_q(F(sq_))} "
+                f"{coq_uc(ucd(w.ureg.Unit(unit_ or 'dimensionless')._units))} {coq_q(F(n))} {coq_q(F(0.0 if sb is None else sb))} {res}",
+                plan, ("kbare", json.dumps(plan, sort_keys=True)))
+
     # unit rules incl. offset units: Measurement / Quantity(ufloat) against plain quantities (oracle only)
     rule_units = ["m", "cm", "s", "kg", "degC", "degF", "kelvin", "delta_degC", "m/s", "", "degC*m", "1/kelvin"]
     for _ in range(1200 if thorough else 300):
@@ -1513,6 +1613,8 @@ def replay(ck, path):
         fl = oracle_unit_rules(w, rp["op"], tuple(rp["a"]), tuple(rp["b"]))
     elif k == "derived":
         fl = oracle_derived(w, rp)
+    elif k == "bare":
+        fl = oracle_bare(w, rp)
     elif k == "ufloat-identity":
         fl = oracle_ufloat_identity(w, rp)
     elif k == "format":
